@@ -110,6 +110,11 @@ def _lit(r, a):
     return a
 
 
+CANARIES = ['1 / 3', '2 ** 0.5', '10 / 7 * 3', '1 / 3 + 0.1 * 3', '(2 / 3) | round(3)', '1234567.891 | pretty', '[3, 1, 2] | sorted', '"a b  c" | split',
+            '{"b": 1, "a": [1, 2]} | pretty', 'match("Ab1", "b\\d", "i")', '[1 / 7, 2 / 7] | sum', '100 / 3 | str', '0.1 + 0.2', '2 ** 100', '(1 / 3) * 3 == 1',
+            '"x" + 1 / 3', '[1, 2, 3] | map(v => v / 3) | max', '7 | float', '"1.10" | float', '1 / 3 | floor', '-7 / 2 | round']
+
+
 def generate(seed, tier):
     S = Streams(seed)
     rc, ro, rf = S['config'], S['ops'], S['faults']
@@ -176,6 +181,10 @@ def generate(seed, tier):
         op['entropy'] = ro.randrange(2 ** 32)
         ops.append(op)
         prev_prog = src_prog
+        if (op.get('bad') or op.get('budget') or op.get('kill_at')) and rf.random() < 0.4 or rf.random() < 0.04:
+            # a canary right after a call that went wrong: small programs whose result shows process-wide state a failed call
+            # may have left behind (arithmetic precision, rounding, regex flags, sort order, text of numbers)
+            ops.append({'op': 'eval', 'space': si, 'src': rf.choice(CANARIES), 'entropy': rf.randrange(2 ** 32), 'canary': True})
     case = {'world': world, 'ops': ops}
     if tier == 'thorough' and rc.random() < 0.04:
         # kill-point enumeration on a short history
